@@ -12,7 +12,7 @@ ID = 'C04'
 POISON_WORD = 0x7ff8000000000000   # NaN
 RULE = ('count matrices: all n=2 over {0..3}, all n=3 over {0,1,2}, a 1/23 sample of n=4 binary patterns (T: + n=3 over {0,1,5}, n=4 binary off-diagonal with '
         'diagonal in {0,2}) with every row having outgoing counts x containers {ndarray,csr,csc,coo,lil,dok,dia,bsr (single block and multi-block)}_matrix '
-        'x prior_counts {None,1,0.5} x calculate_eq_probs {T,F}; on every 3rd matrix additionally float64/int32 counts, '
+        'x prior_counts {None,1,0.5; asymmetric / row-normalised / triangular (n,n) arrays on every 3rd matrix} x calculate_eq_probs {T,F}; on every 3rd matrix additionally float64/int32 counts, '
         'Fortran-ordered and transposed-view dense input, and a second call on the same caller object; x builders {normalize,transpose,mle (mle: strongly '
         'connected only, all containers on every 5th matrix; Q: normalize/transpose use all 8 containers on every 4th '
         'matrix and {ndarray,csr,lil} on the rest)}; state=(matrix,container,prior,eq,builder); '
@@ -21,7 +21,7 @@ ASSUMPTIONS = ['tolerances: row sums 1e-12, detailed balance / stationarity 1e-9
                'stationarity asserted only for strongly connected inputs (unique stationary vector)',
                'scipy sparse *matrix* containers only (the property\'s list); sparse arrays are not in scope',
                'NEP-49 poison allocator fills fresh numpy buffers with NaN during the run']
-GUARDS = {'float_counts': 500, 'dense_layouts': 200, 'sparse_in': 1000, 'prior': 1000, 'strongly_connected': 1000, 'not_strongly_connected': 100,
+GUARDS = {'array_prior': 300, 'float_counts': 500, 'dense_layouts': 200, 'sparse_in': 1000, 'prior': 1000, 'strongly_connected': 1000, 'not_strongly_connected': 100,
           'mle_sparse': 100, 'eq_off': 1000}
 NSH = {'quick': 64, 'thorough': 256}
 CONTAINERS = ('ndarray', 'csr', 'csc', 'coo', 'lil', 'dok', 'dia', 'bsr', 'bsrblocks')
@@ -77,6 +77,19 @@ def wrap(C, cont, dtype='int64'):
     return getattr(sp, cont + '_matrix')(C)
 
 
+def prior_array(name, n):
+    """(n, n) prior count matrices: asymmetric / row-normalised / triangular"""
+    i, j = np.indices((n, n))
+    if name == 'asym':
+        return (1 + i + 2 * j) / 4.0
+    if name == 'rownorm':
+        P = 1.0 + ((i + 2 * j) % 3)
+        return P / P.sum(axis=1, keepdims=True)
+    if name == 'triu':
+        return np.triu(np.ones((n, n))) * 0.5
+    raise ValueError(name)
+
+
 def snap(M):
     if sp.issparse(M):
         if M.format in ('csr', 'csc', 'bsr'):
@@ -95,8 +108,11 @@ def check_case(case, ctx):
     cont, prior, eq, bname = case['container'], case['prior'], case['eq'], case['builder']
     n = len(C)
     ctx.ev()
+    if isinstance(prior, str):            # array-valued prior, encoded by name in the case
+        prior = prior_array(prior, n_ := len(C))
+        ctx.guard('array_prior')
     sc = mr.strongly_connected(C + (0 if prior is None else prior))
-    key = (C.tobytes(), n, cont, prior, eq, bname, case.get('dtype', 'int64'))
+    key = (C.tobytes(), n, cont, repr(case['prior']), eq, bname, case.get('dtype', 'int64'))
     ctx.state(key, nontrivial=bool(sc and ((C == 0).any() or not np.array_equal(C, C.T))))
     ctx.guard('strongly_connected' if sc else 'not_strongly_connected')
     if not cont.startswith('ndarray'):
@@ -117,7 +133,7 @@ def check_case(case, ctx):
     tag = bname
     ctag = 'sparse' if not cont.startswith('ndarray') else 'dense'
     try:
-        Cout, T, pi = fn(M, prior_counts=prior, calculate_eq_probs=eq)
+        Cout, T, pi = fn(M, prior_counts=(None if prior is None else (prior.copy() if isinstance(prior, np.ndarray) else prior)), calculate_eq_probs=eq)
     except Exception as e:
         ctx.violation('%s:raises:%s:%s' % (tag, ctag, type(e).__name__), case, '%s raised %r on %r' % (bname, e, case))
         return
@@ -140,7 +156,7 @@ def check_case(case, ctx):
             ctx.violation('%s:container:%s:%s' % (tag, name, cont), case, 'output %s has type %s for input %s (prior=%r)' % (
                 name, type(out).__name__, type(M).__name__, prior))
     Td = mr.to_dense(T).astype(float)
-    Cp = C.astype(float) + (0 if prior is None else prior)
+    Cp = C.astype(float) + (0 if prior is None else np.asarray(prior, float))
     if Td.shape != (n, n) or not np.isfinite(Td).all():
         ctx.violation('%s:T_invalid:%s' % (tag, ctag), case, 'T=%r for %r' % (Td.tolist(), case))
         return
@@ -230,6 +246,13 @@ def run_shard(sh, ctx):
                             continue
                         case = {'C': C.tolist(), 'container': cont, 'prior': prior, 'eq': eq, 'builder': bname}
                         check_case(case, ctx)
+            # array-valued prior counts (asymmetric, row-normalised, triangular)
+            if (j // NSH[tier]) % 3 == 1 and (bname != 'mle' or sc0):
+                for cont in ('ndarray', 'csr', 'coo', 'lil'):
+                    if bname == 'mle' and cont not in ('ndarray', 'csr'):
+                        continue
+                    for pname in ('asym', 'rownorm', 'triu'):
+                        check_case({'C': C.tolist(), 'container': cont, 'prior': pname, 'eq': True, 'builder': bname}, ctx)
             # float-valued counts (e.g. the output of a previous transpose), dense memory layouts, repeated use
             if (j // NSH[tier]) % 3 == 0 and (bname != 'mle' or sc0):
                 for cont in ('ndarray', 'ndarrayF', 'ndarrayT', 'csr', 'csc', 'coo', 'lil'):
